@@ -241,6 +241,45 @@ fn case<S: Shape>(r: &mut Rng, acc: &mut Acc, index: u64) {
             cmp(acc, &v, ti, "fresh twin that only received the last start_with", "start_with-accumulates");
         }
     }
+    // start_with while clones of the timeline are alive: it must take effect on the instance it is
+    // called on (original or clone) and on that instance only
+    {
+        let mut w = S::default();
+        for i in 0..S::n() {
+            w.set(i, gen_value(r, S::KINDS[i]));
+        }
+        let alive = tl.clone2(); // a clone that stays alive across the call
+        tl.start_with(&w);
+        let mut fresh = build::<S>(&specs, merged);
+        fresh.start_with(&w);
+        let mut z = S::default();
+        for i in 0..S::n() {
+            z.set(i, gen_value(r, S::KINDS[i]));
+        }
+        let mut c2 = tl.clone2();
+        c2.start_with(&z);
+        let mut fresh_z = build::<S>(&specs, merged);
+        fresh_z.start_with(&z);
+        for ti in (0..times.len()).step_by(2) {
+            let (mut a, mut b, mut c, mut d) = (S::default(), S::default(), S::default(), S::default());
+            tl.update(&mut a, times[ti]);
+            fresh.update(&mut b, times[ti]);
+            c2.update(&mut c, times[ti]);
+            fresh_z.update(&mut d, times[ti]);
+            acc.evals(2);
+            for f in 0..S::n() {
+                if keyed[f] && !(a.bits(f) == b.bits(f) || (a.get(f) == 0.0 && b.get(f) == 0.0)) {
+                    acc.violation("c09:start_with-ignored-while-clone-alive", format!("start_with on a timeline that has a live clone: field {} at t={} is {} but a fresh timeline given the same start value yields {}", S::FIELDS[f], times[ti], a.get(f), b.get(f)), case("start_with with a live clone", times[ti]));
+                    break;
+                }
+                if keyed[f] && !(c.bits(f) == d.bits(f) || (c.get(f) == 0.0 && d.get(f) == 0.0)) {
+                    acc.violation("c09:start_with-on-clone", format!("start_with on a clone: field {} at t={} is {} but a fresh timeline given the same start value yields {}", S::FIELDS[f], times[ti], c.get(f), d.get(f)), case("start_with on a clone", times[ti]));
+                    break;
+                }
+            }
+        }
+        drop(alive);
+    }
     if keyed.iter().any(|k| *k) {
         acc.sig(format!("{}|merged={merged}|starts={n_start}|{}", specs[0].kind_name(), S::NAME));
         acc.sample(2, || case("all orders / clones / prior contents agree bit-for-bit", times[times.len() / 2]));
